@@ -62,7 +62,8 @@ CHECKS = {
     'C11': ('All ordered pairs of a per-logic pool of ~1-5k formulas (size<=2, 3-ary families, printer '
             'stress shapes, renamed atoms): == iff same tree, symmetric, consistent with !=, hash, '
             'set and dict behaviour; transitivity on all triples of a 60-formula core; Bool vs bool; '
-            'clone() equal, node-disjoint and mutation-independent.',
+            'clone() equal, node- and operand-list-disjoint and mutation-independent, for formulas built from '
+            'Formula operands and from plain str/bool operands.',
             'Trusted: structural reader for tree identity.', TECH, '7/C11'),
     'C12': ('Every labelled digraph on <=4 nodes (5 in thorough) under every node insertion order, '
             'every renaming (n<=3) and every per-node successor iteration order (n<=3; n=4 block in '
@@ -91,7 +92,8 @@ CHECKS = {
             TECH, '7/C15 and 8'),
     'C16': ('Explicit-state breadth-first search over histories of the process-global BDD node store: '
             'build / apply / negate / restrict / grab child / drop / gc on 2-3 slots over 2-3 '
-            'variables, every ordering; 2 variables x 2 slots searched to closure, others depth '
+            'variables, every ordering, plus configurations in which a diagram over another ordering of the '
+            'same variables lives in the same store; 2 variables x 2 slots searched to closure, others depth '
             'bounded; each transition runs the real library by replaying the history; invariants: no '
             'two live nodes with equal (var,low,high) or equal function, reduced, ordered, parent '
             'sets exact, slots agree with a truth-table model, == iff same root iff same function.',
@@ -135,7 +137,7 @@ CHECKS.update({
             'returns it must agree.', TECH, '7/C04'),
     'C06': ('Schedules of a sequential program = iteration orders of its unordered collections. For '
             'every instance: all bijections onto 5 naming schemes, S/R list orders, label containers, '
-            'atom renamings, unreachable extensions; every permutation inside the height tie groups of '
+            '(also one set object shared by equally labelled states), atom renamings, unreachable extensions; every permutation inside the height tie groups of '
             'the LTL closure (deviation-bounded when too many) and every successor-set order, both owned '
             'by harness-side wrappers; all 24 renamings of 4-state structures; the result mapped back '
             'must equal the base result. Hash seeds: fixed instance list in fresh interpreters.',
@@ -160,7 +162,7 @@ CHECKS.update({
             'printed formulas. Well-formed queries only, so TypeError is a violation too.', TECH_HIST, '7/C19'),
 })
 
-ADDENDUM = (' Beyond the core scope the quick tier also enumerates the input dimensions that four waves of '
+ADDENDUM = (' Beyond the core scope the quick tier also enumerates the input dimensions that five waves of '
             'independently seeded changes attacked (DESIGN.md section 17): n-ary and/or, negation-rich and '
             'deeply nested formulas, 4-7 state structures, unusual state / node / atom types and names, '
             'aliasing of caller-owned objects, duplicates, and query-edit-query call histories.')
